@@ -16,6 +16,7 @@ from __future__ import annotations
 import copy
 import json
 import os
+import signal
 import tempfile
 from enum import Enum
 from typing import Any, Dict, List, Optional, Set, Tuple
@@ -1096,8 +1097,10 @@ def grouping_oracle(ctx: Ctx, suite: str, case: Any, feats: List[Any], groups: L
         if options_collide(feats[i], feats[j]):
             return FINDING_COLLISION
         if apart:
+            # an agreeing pair is torn apart when one of the two was pulled into the group of a colliding option set
+            # (possibly on another dependency level): the colliding partner is among the features of this very set
             for x in (i, j):
-                for y in groups[where[x]]:
+                for y in range(len(feats)):
                     if y != x and options_collide(feats[x], feats[y]):
                         return FINDING_COLLISION
         return None
@@ -1294,6 +1297,17 @@ def suite_levels(ctx: Ctx) -> None:
 # suite 7: end to end through mloda.run_all
 
 
+E2E_TIMEOUT_S = 10
+
+
+class _RunTimeout(BaseException):
+    pass
+
+
+def _on_alarm(signum: Any, frame: Any) -> None:
+    raise _RunTimeout()
+
+
 class Obs:
     """one feature as a calculate_feature call saw it"""
 
@@ -1330,6 +1344,7 @@ def suite_e2e(ctx: Ctx) -> None:
     rng = ctx.rng
     n = ctx.budget(1000, 20000)
     PA, PD = F.PyArrowTable, F.PandasDataFrame
+    timeouts = 0
     for _case in range(n):
         calls: List[List[Obs]] = []
 
@@ -1443,16 +1458,30 @@ def suite_e2e(ctx: Ctx) -> None:
 
         # ---- run
         outcome = "ok"
+        old_handler = signal.signal(signal.SIGALRM, _on_alarm)
+        signal.alarm(E2E_TIMEOUT_S)
         try:
             mloda.run_all(feats, compute_frameworks=fwset, plugin_collector=F.collector({R, G}))
+        except _RunTimeout:
+            outcome = "timeout"
         except Exception as e:
             msg = repr(e) + str(e)
             if "Duplicate key" in msg or "Cannot propagate context" in msg or "Cannot update group" in msg or "conflict" in msg and "Context key" in msg:
                 outcome = "conflict"
             else:
                 outcome = "error:" + type(e).__name__ + ":" + msg[-160:]
+        finally:
+            signal.alarm(0)
+            signal.signal(signal.SIGALRM, old_handler)
         mixes = len({repr(rs["group"]) for rs in req_specs}) > 1 and len({repr(rs["context"]) for rs in req_specs}) > 1
         ctx.case("e2e", case, mixes or mode == "own", e2e_mode=mode, e2e_outcome=outcome.split(":")[0], e2e_calls=len(calls))
+        if outcome == "timeout":
+            timeouts += 1
+            ctx.violation("e2e", {**case, "calls": [[o.j() for o in c_] for c_ in calls]}, f"run_all did not terminate within {E2E_TIMEOUT_S} s", "timeout", "terminates")
+            if timeouts >= 3:
+                ctx.note("e2e suite stopped after 3 runs that did not terminate")
+                break
+            continue
         if exp_conflict != (outcome == "conflict"):
             if outcome.startswith("error"):
                 ctx.tag("e2e_skipped", outcome[-110:])
